@@ -18,6 +18,7 @@ from collections import Counter
 import numpy as np
 
 from cidersim import boot
+from cidersim.faultat import FaultAt, draw_fault
 from cidersim.prng import Digest, Rng, derive
 
 LEVEL = "exploration"
@@ -33,7 +34,7 @@ def assumptions():
         "control points are taken as selected by the object (pivoted-Cholesky reduction itself is not re-derived)",
         "per-system covariance vectors of orbital-derivative entries are validated by central finite differences (1e-5), everything else directly (1e-10)",
         "alpha_mol is compared with tolerance scaled by cond(K); per-kernel alpha through the backward error of (Kmm+eps I) alpha = Kmn alpha_mol",
-        "no faults are injected: the property promises nothing about damaged data files or interrupted calls",
+        "injected faults: a training call is interrupted at a seeded Python line inside the package (MemoryError) and the session recovers by reset_reactions + re-add / store again / fit again; damaged data files are not injected (the property promises nothing about them)",
     ]
 
 
@@ -325,12 +326,18 @@ def gen_history(seed):
         if c == "add":
             ops.append({"op": "add", "rxns": [gen_reaction(rng, cfg, ids) for _ in range(rng.randint(1, 5))]})
             nrx += 1
+            if rng.chance(0.07):
+                # the call dies part-way (out of memory, Ctrl-C): the session recovers the
+                # documented way - reset_reactions() and add the earlier reactions again
+                ops[-1]["fault"] = draw_fault(rng, 300)
         elif c == "fit":
             if nrx == 0:
                 ops.append({"op": "add", "rxns": [gen_reaction(rng, cfg, ids) for _ in range(rng.randint(2, 5))]})
                 nrx += 1
             x = None if rng.chance(0.6) else [rng.uniform(0.5, 1.5), rng.uniform(0.3, 1.2)]
             ops.append({"op": "fit", "x": x, "sigma_min": rng.choice([0.25, 0.5, 0.1])})
+            if rng.chance(0.07):
+                ops[-1]["fault"] = draw_fault(rng, 200)  # interrupted fit, then fitted again
         elif c == "reset":
             ops.append({"op": "reset"})
             nrx = 0
@@ -338,6 +345,8 @@ def gen_history(seed):
             ops.append({"op": "lik", "x": None if rng.chance(0.5) else [rng.uniform(0.5, 1.5), rng.uniform(0.3, 1.2)], "sigma_min": rng.choice([0.25, 0.5])})
         else:
             ops.append({"op": "store", "ids": [rng.choice(ids)]})
+            if rng.chance(0.2):
+                ops[-1]["fault"] = draw_fault(rng, 1500)  # interrupted store, then stored again
     if nrx == 0:
         ops.append({"op": "add", "rxns": [gen_reaction(rng, cfg, ids) for _ in range(3)]})
     ops.append({"op": "fit", "x": None, "sigma_min": 0.25})
@@ -647,6 +656,26 @@ def exec_history(hist, workdir, collect=None, light=False):
             V("op-raises:%s:%s:%s" % (opname, type(e).__name__, where), "step %d: %s" % (cur["step"], str(e)[:200]))
             raise _Abort()
 
+    def interrupted(op, fn, *a, **k):
+        """run fn under the op's injected failure; True if the failure fired (un-acknowledged
+        call).  A failure point beyond the end of the call means the call simply completed."""
+        inj = FaultAt(op.get("fault"))
+        try:
+            with inj:
+                _quiet(fn, *a, **k)
+        except Exception as e:
+            if inj.fired:
+                stats["calls_interrupted_by_injected_failure"] += 1
+                stats["fault_site_" + inj.where] += 1
+                return True
+            import traceback
+
+            tb = traceback.extract_tb(e.__traceback__)
+            where = "%s:%s" % (os.path.basename(tb[-1].filename), tb[-1].name) if tb else "?"
+            V("op-raises:%s:%s:%s" % (op["op"], type(e).__name__, where), "step %d: %s" % (cur["step"], str(e)[:200]))
+            raise _Abort()
+        return False
+
     for step, op in enumerate(hist["ops"]):
       try:
           cur["step"] = step
@@ -677,7 +706,10 @@ def exec_history(hist, workdir, collect=None, light=False):
               stats["ctrl_points"] += sum(k.Nctrl for k in gp.kernels)
           elif c == "store":
               gc = op.get("get_correlation", True)
-              call("store_mol_covs", gp.store_mol_covs, ddir, list(op["ids"]), get_correlation=gc)
+              if op.get("fault") and interrupted(op, gp.store_mol_covs, ddir, list(op["ids"]), get_correlation=gc):
+                  pass  # recovery: the same systems are simply stored again (below)
+              if not op.get("fault") or True:
+                  call("store_mol_covs", gp.store_mol_covs, ddir, list(op["ids"]), get_correlation=gc)
               if not gc:
                   stats["stores_exchange_only"] += 1
               for sid in op["ids"]:
@@ -719,13 +751,25 @@ def exec_history(hist, workdir, collect=None, light=False):
                   elif abs(ex[sid] - want) > 1e-12 * max(1, abs(want)):
                       V("system:exx_ref:mismatch", "%s %r vs %r" % (sid, ex[sid], want))
           elif c == "add":
-              call("add_reactions", gp.add_reactions, [rxn_to_pkg(r) for r in op["rxns"]])
-              rx_in += [r for r in op["rxns"]]
-              stats["reactions_added"] += len(op["rxns"])
+              if op.get("fault") and interrupted(op, gp.add_reactions, [rxn_to_pkg(r) for r in op["rxns"]]):
+                  # un-acknowledged batch: recover as documented (reset, add the earlier ones again)
+                  _quiet(gp.reset_reactions)
+                  if rx_in:
+                      call("add_reactions", gp.add_reactions, [rxn_to_pkg(r) for r in rx_in])
+                  stats["recoveries_after_interrupted_add"] += 1
+              else:
+                  if not op.get("fault"):
+                      call("add_reactions", gp.add_reactions, [rxn_to_pkg(r) for r in op["rxns"]])
+                  rx_in += [r for r in op["rxns"]]
+                  stats["reactions_added"] += len(op["rxns"])
           elif c == "reset":
               _quiet(gp.reset_reactions)
               rx_in = []
           elif c == "fit":
+              if not rx_in:
+                  continue  # nothing to fit (the only batch so far was interrupted)
+              if op.get("fault") and interrupted(op, gp.fit, x=None if op["x"] is None else np.array(op["x"]), sigma_min=op["sigma_min"]):
+                  stats["refits_after_interrupted_fit"] += 1
               call("fit", gp.fit, x=None if op["x"] is None else np.array(op["x"]), sigma_min=op["sigma_min"])
               R = ref_solve(op["x"], op["sigma_min"])
               last_fit = (R, op)
@@ -1057,7 +1101,13 @@ def coverage(done, tier):
         "spin_modes": {k[5:]: v for k, v in tot.items() if k.startswith("mode_")},
         "versions": {"MOLGP": tot["cfg_v1"], "MOLGP2": tot["cfg_v2"]},
         "distinct_op_bigram_x_config_tuples": len(bigrams),
-        "faults_injected": "none: no fault dimension exists for this property (see DESIGN.md 3.4)",
+        "faults_injected": {
+            "calls_interrupted_at_a_seeded_point": tot["calls_interrupted_by_injected_failure"],
+            "recoveries_after_interrupted_add_reactions": tot["recoveries_after_interrupted_add"],
+            "refits_after_interrupted_fit": tot["refits_after_interrupted_fit"],
+            "sites": {k[11:]: v for k, v in sorted(tot.items()) if k.startswith("fault_site_")},
+            "note": "an interrupted add_reactions / store_mol_covs / fit is un-acknowledged; the session recovers the documented way (reset_reactions + add again, store again, fit again) and everything after is judged as usual. No damaged data files: the property promises nothing about them.",
+        },
         "simulated_time": "not applicable: nothing on this surface reads a clock",
         "real_components": ["ciderpress.models.train (MOLGP, MOLGP2)", "ciderpress.models.dft_kernel", "kernels", "SciPy cholesky/cho_solve", "pyscf.lib.chkfile + h5py (real files in a scratch directory)", "libxc baselines (MOLGP2)"],
         "stub_components": ["training data (synthetic)"],
